@@ -93,15 +93,16 @@ def observe (st : St) (result : String) : St × String := Id.run do
       if !first then out := out ++ ";"
       first := false
       out := out ++ l ++ ":"
-      -- FindServices: `Latest` of every DID of the subject
-      if rows.any (fun r => r.vers.isEmpty) then
-        out := out ++ "err:notfound"
-      else
-        let owners := rows.filterMap (fun r =>
-          match r.vers with
-          | v :: _ => if v.c.svcs.contains l then some s!"d{(label st.didLbl r.id).2}" else none
-          | [] => none)
-        out := out ++ String.intercalate "," (sortStr owners)
+      -- `FindServices(subject, &type)`
+      match findServices w s (some l) with
+      | .ok found => out := out ++ String.intercalate "," (sortStr (found.map (fun p => s!"d{(label st.didLbl p.1).2}")))
+      | .err e => out := out ++ "err:" ++ e
+      | .panic e => out := out ++ "panic:" ++ e
+    -- `FindServices(subject, nil)`: number of services found without a type
+    match findServices w s none with
+    | .ok found => out := out ++ s!" untyped={found.length}"
+    | .err e => out := out ++ " untyped=err:" ++ e
+    | .panic e => out := out ++ " untyped=panic:" ++ e
   return (st, out)
 
 def parseOp (j : Json) : Option Op :=
